@@ -133,16 +133,7 @@ func (context *Context) ResolveToStruct(def ast.Type) bool {
 }
 
 func (context *Context) ResolveRefs(def ast.Type) ast.Type {
-	if !def.IsRef() {
-		return def
-	}
-
-	referredObj, found := context.LocateObject(def.AsRef().ReferredPkg, def.AsRef().ReferredType)
-	if !found {
-		return def
-	}
-
-	return context.ResolveRefs(referredObj.Type)
+	return context.Schemas.ResolveToType(def)
 }
 
 func (context *Context) BuildersForType(typeDef ast.Type) ast.Builders {
